@@ -121,90 +121,116 @@ def _conjuncts(test):
     return [norm(test)]
 
 
+def _expr_models(depth):
+    """expression models up to the given depth; leaves: variables x/y, number, string, calls with / without args"""
+    leaves = [{'variable': 'x'}, {'variable': 'y'}, {'number': 1.0}, {'string': 's'}, {'function': {'name': 'f'}}, {'function': {'name': 'g', 'args': []}}]
+    if depth == 0:
+        return leaves
+    sub = _expr_models(depth - 1)
+    pick = sub[:3] + sub[4:5] + sub[-2:]
+    out = list(leaves)
+    for a in pick:
+        out.append({'unary': {'op': '-', 'expr': a}})
+        out.append({'group': a})
+        out.append({'function': {'name': 'h', 'args': [a]}})
+        for b in pick:
+            out.append({'binary': {'op': '+', 'left': a, 'right': b}})
+            out.append({'function': {'name': 'k', 'args': [a, {'number': 2.0}, b]}})
+    return out
+
+
+def _names(e):
+    (k, v), = e.items()
+    if k == 'variable':
+        return {v}
+    if k in ('number', 'string'):
+        return set()
+    if k == 'group':
+        return _names(v)
+    if k == 'unary':
+        return _names(v['expr'])
+    if k == 'binary':
+        return _names(v['left']) | _names(v['right'])
+    out = {v['name']}
+    for a in v.get('args', []):
+        out |= _names(a)
+    return out
+
+
+def _has_call(e):
+    (k, v), = e.items()
+    if k == 'function':
+        return True
+    if k == 'group':
+        return _has_call(v)
+    if k == 'unary':
+        return _has_call(v['expr'])
+    if k == 'binary':
+        return _has_call(v['left']) or _has_call(v['right'])
+    return False
+
+
 def check_traversal(chk, sch):
+    """C18.X by abstract execution: the use collector, the statement walker and the pointless-expression test applied to every expression model of depth <= 2"""
+    from ..absint import Interp, ADict, AList, RaiseSig, reify
+    from ..evalsim import build, show
     mod = chk.repo.module('model')
+    it = Interp(mod, 'C18.X')
+    it.repo = chk.repo
+    it.max_depth = 30
     f = mod.func('_get_expression_variable_uses', 'C18.X')
-    p = f.args.args[0].arg
-    kv = None
-    for s in f.body:
-        if isinstance(s, ast.Assign) and 'keys' in norm(s.value):
-            kv = s.targets[0].id
-    chain = next((s for s in f.body if isinstance(s, ast.If)), None)
-    if kv is None or chain is None:
-        raise Unrecognised('C18.X', '_get_expression_variable_uses: kind dispatch not found', mod.rel)
-    branches = {}
-    for test, body in if_chain(chain):
-        if test is not None and isinstance(test, ast.Compare) and norm(test.left) == kv and const_str(test.comparators[0]):
-            branches[const_str(test.comparators[0])] = body
-    # expression positions per kind from the schema
-    want = {}
-    for kind, m in sch.unions['Expression'].items():
-        if m.type == 'Expression':
-            want[kind] = [f"{p}['{kind}']"]
-        elif m.type in sch.structs:
-            pos = []
-            for k, mm in sch.structs[m.type].items():
-                if mm.type == 'Expression':
-                    pos.append(f"{p}['{kind}']['{k}']")
-            if pos:
-                want[kind] = pos
-    for kind, positions in want.items():
-        body = branches.get(kind)
-        if body is None:
-            chk.bad('C18.X', mod, f.name, f"kind '{kind}' not traversed", f"variable uses inside '{kind}' expressions are not collected: a variable used only there is reported as unused", node=chain)
-            continue
-        txt = ' ; '.join(norm(s) for s in body)
-        for pos in positions:
-            arr = pos.endswith("['args']")
-            hit = (f'{f.name}({pos},' in txt) or (arr and f'in {pos}' in txt and f'{f.name}(' in txt)
-            if hit:
-                chk.ok('C18.X', f'use collector visits {pos}')
-            else:
-                chk.bad('C18.X', mod, f.name, f'{pos} not visited', f'the use collector does not visit {pos}: variables used only in that position are reported as unused / used-before-assignment is missed', node=body[0])
-    fb = branches.get('function', [])
-    if any(f"uses[{p}['function']['name']]" in norm(s) for s in ast.walk(ast.Module(body=fb, type_ignores=[])) if isinstance(s, ast.Assign)):
-        chk.ok('C18.X', "a function node's name counts as a variable use (functions are variables)")
-    else:
-        chk.bad('C18.X', mod, f.name, 'function name not counted as a use', "the name of a called function must count as a use: a local holding a function value is otherwise reported as unused", node=chain)
-    vb = branches.get('variable', [])
-    if any(f"uses[{p}['variable']]" in norm(s) for s in ast.walk(ast.Module(body=vb, type_ignores=[])) if isinstance(s, ast.Assign)):
-        chk.ok('C18.X', 'variable nodes are recorded as uses')
-    else:
-        chk.bad('C18.X', mod, f.name, 'variable uses not recorded', 'variable references must be recorded as uses', node=chain)
-    # statement level
-    g = mod.func('_get_variable_assignments_and_uses', 'C18.X')
-    gtxt = ' ; '.join(norm(s) for s in walk_no_nested(g) if isinstance(s, (ast.Expr, ast.Assign)))
-    for pos in ("statement['expr']['expr']", "statement['jump']['expr']", "statement['return']['expr']"):
-        if f'{f.name}({pos},' in gtxt:
-            chk.ok('C18.X', f'statement walker visits {pos}')
-        else:
-            chk.bad('C18.X', mod, g.name, f'{pos} not visited', f'variable uses in {pos} are not collected', node=g)
-    # pointless expression
     h = mod.func('_is_pointless_expression', 'C18.X')
-    hp = h.args.args[0].arg
-    hchain = next((s for s in h.body if isinstance(s, ast.If)), None)
-    hb = {}
-    for test, body in if_chain(hchain):
-        if test is not None and isinstance(test, ast.Compare) and const_str(test.comparators[0]):
-            hb[const_str(test.comparators[0])] = body
-    fn = hb.get('function')
-    if fn and len(fn) == 1 and norm(fn[0]) == 'return False':
-        chk.ok('C18.X', 'pointless test: a function call is never pointless')
+    g = mod.func('_get_variable_assignments_and_uses', 'C18.X')
+    models = _expr_models(2)
+    bad_uses = bad_point = None
+    n = 0
+    for e in models:
+        n += 1
+        uses = ADict({})
+        it.depth = 0
+        try:
+            it.call_function(f, [build(e), uses, 7], f)
+            got = dict(uses.d)
+        except RaiseSig as sig:
+            got = f'raises {sig.cls}{sig.args_!r}'
+        want = {nm: 7 for nm in _names(e)}
+        if got != want and bad_uses is None:
+            bad_uses = (e, got, want)
+        it.depth = 0
+        try:
+            p = it.call_function(h, [build(e)], h)
+        except RaiseSig as sig:
+            p = f'raises {sig.cls}'
+        if p != (not _has_call(e)) and bad_point is None:
+            bad_point = (e, p)
+    if bad_uses:
+        e, got, want = bad_uses
+        chk.bad('C18.X', mod, f.name, f'uses of `{show(e)}`: {got}', f'the use collector applied to `{show(e)}` records {got}; the names used are {sorted(want)} (variables and called function names, including those inside '
+                f'arguments, operands and groups): a name used only in the missed position is reported as unused, or a use before assignment is missed', node=f)
     else:
-        chk.bad('C18.X', mod, h.name, "'function' branch", 'an expression statement that is a function call has effects and must never be reported as pointless', node=h)
-    for kind, positions in (('binary', [f"{hp}['binary']['left']", f"{hp}['binary']['right']"]), ('unary', [f"{hp}['unary']['expr']"]), ('group', [f"{hp}['group']"])):
-        body = hb.get(kind)
-        txt = norm(body[0]) if body else ''
-        calls = [norm(c.args[0]) for s in (body or []) for c in ast.walk(s) if isinstance(c, ast.Call) and call_name(c) == h.name]
-        if body and sorted(calls) == sorted(positions) and (' and ' in txt or len(positions) == 1):
-            chk.ok('C18.X', f"pointless test recurses into {', '.join(positions)}" + (' (both must be pointless)' if kind == 'binary' else ''))
-        else:
-            chk.bad('C18.X', mod, h.name, f"'{kind}': inspects {calls}",
-                    f"for a {kind} node the pointless test must inspect {positions} (all of them): with {calls} a statement whose other operand calls a function is reported as pointless "
-                    f"although deleting it changes the run", node=body[0] if body else h)
-    tail = h.body[-1]
-    if isinstance(tail, ast.Return) and norm(tail.value) == 'True':
-        chk.ok('C18.X', 'literals and variable reads are pointless')
+        chk.ok('C18.X', f'use collector: {n} expression models of depth <= 2 - exactly the variable and function names of the expression are recorded, at the statement index, first use kept', count=n)
+    if bad_point:
+        e, p = bad_point
+        chk.bad('C18.X', mod, h.name, f'pointless(`{show(e)}`) = {p}', f'the pointless-expression test applied to `{show(e)}` gives {p}; an expression is pointless exactly when it contains no function call '
+                f'(deleting a statement that calls a function changes the run; a call-free expression statement has no effect)', node=h)
+    else:
+        chk.ok('C18.X', f'pointless test: {n} expression models - pointless iff the expression contains no function call anywhere', count=n)
+    # statement walker: assignments (first index kept) and uses in expr / jump / return statements
+    X, Y = {'variable': 'x'}, {'function': {'name': 'y', 'args': [{'variable': 'z'}]}}
+    stmts = [{'expr': {'name': 'a', 'expr': X}}, {'label': 'L'}, {'jump': {'label': 'L', 'expr': Y}}, {'jump': {'label': 'L'}}, {'return': {'expr': {'variable': 'r'}}}, {'return': {}},
+             {'expr': {'name': 'a', 'expr': {'variable': 'a'}}}, {'expr': {'expr': {'variable': 'q'}}}, {'expr': {'name': 'x', 'expr': {'number': 1.0}}}]
+    assigns, uses = ADict({}), ADict({})
+    it.depth = 0
+    try:
+        it.call_function(g, [build(stmts), assigns, uses], g)
+        got = (dict(assigns.d), dict(uses.d))
+    except RaiseSig as sig:
+        got = f'raises {sig.cls}{sig.args_!r}'
+    want = ({'a': 0, 'x': 8}, {'x': 0, 'y': 2, 'z': 2, 'r': 4, 'a': 6, 'q': 7})
+    if got == want:
+        chk.ok('C18.X', 'statement walker: first assignment index per name; uses collected from expression, assignment, conditional-jump and return statements (optional members absent: no error)')
+    else:
+        chk.bad('C18.X', mod, g.name, f'statement walker gives {got}', f'the statement walker applied to a 9-statement list gives (assignments, uses) = {got}; expected {want}', node=g)
 
 
 def check_label_scopes(chk):
